@@ -335,7 +335,9 @@ def _apply(v, e, c, ne, rse, mon, hist, sigs, label, ncells0):
     s1 = _state(out[0], out[1], out[2])
     t1 = topo.Topo(out[0], out[1], out[2])
     canon = [topo.canon(vp) for vp, ep in t1.paths]
-    parallel = len(set(canon)) != len(canon)      # two distinct interfaces with the same vertex sequence (digon)
+    # two distinct interfaces with the same vertex sequence, or two mesh edges joining the same two vertices (digon): the
+    # interface list of the next pass is de-duplicated by vertex sequence (known finding F-PARALLEL-INTERFACES)
+    parallel = len(set(canon)) != len(canon) or len(set(s1[2])) != len(s1[2])
     try:
         out2 = ve.generate_mesh(out[0], out[1], out[2], ne=ne, replace_short_edges=rse)
     except Exception as exc:
